@@ -365,6 +365,7 @@ package twig
 //@ func toBool props: C09
 //@   ensures truthySpec(value, ret)
 //@ func isEmptyValue props: C19 C09
+//@   function
 //@   ensures truthySpec(v, !ret)
 
 // ---------------------------------------------------------------- control flow (C09)
@@ -1013,3 +1014,30 @@ package twig
 //@   atcall[C14,C04] GetTokenizer a0 == source
 //@   atcall[C14,C04] (*Parser).parseOuterTemplate p.tokens == tokenizer.result && p.tokenIndex == 0
 //@   atcall[C14,C04] NewRootNode#1 a0 == nodes
+
+// ---------------------------------------------------------------- more filter equations (C19)
+// length: the number of elements that first, last, slice and a for loop observe - characters of a
+// string (the rune view the slice specification uses), elements of a list, entries of a map
+//@ func length props: C19
+//@   ensures[C19] v == nil ==> ret0 == 0 && ret1 == nil
+//@   ensures[C19] typeIs(v, "string") ==> ret0 == runecount(unboxAs(v, "string")) && ret1 == nil
+//@   ensures[C19] typeIs(v, "[]interface{}") ==> ret0 == len(unboxAs(v, "[]interface{}")) && ret1 == nil
+//@   ensures[C19] typeIs(v, "map[string]interface{}") ==> ret0 == len(unboxAs(v, "map[string]interface{}")) && ret1 == nil
+//@ define asList(X) unboxAs(X, "[]interface{}")
+//@ define asStr(X) unboxAs(X, "string")
+// first / last: element 0 / len-1 of a list and nothing for an empty one; the first / last character
+// of a string
+//@ func (*CoreExtension).filterFirst props: C19
+//@   ensures[C19] typeIs(value, "[]interface{}") ==> ret1 == nil && ret0 == ite(len(asList(value)) > 0, asList(value)[0], nil)
+//@   ensures[C19] typeIs(value, "string") && len(asStr(value)) > 0 ==> ret1 == nil && typeIs(ret0, "string") && unboxAs(ret0, "string") == str_of_rune(runes_of(asStr(value))[0])
+//@ func (*CoreExtension).filterLast props: C19
+//@   ensures[C19] typeIs(value, "[]interface{}") ==> ret1 == nil && ret0 == ite(len(asList(value)) > 0, asList(value)[len(asList(value)) - 1], nil)
+//@   ensures[C19] typeIs(value, "string") && len(asStr(value)) > 0 ==> ret1 == nil && typeIs(ret0, "string") && unboxAs(ret0, "string") == str_of_rune(runes_of(asStr(value))[runecount(asStr(value)) - 1])
+// reverse of a list: same length, element k is element len-1-k of the input, in a new list (so it
+// is a length-preserving involution and the input is untouched)
+//@ func (*CoreExtension).filterReverse props: C19
+//@   loop 2 invariant[C19] typeIs(value, "[]interface{}") && i + j == len(asList(value)) - 1 && 0 <= i && 0 - 1 <= j && len(result) == len(asList(value)) && freshArr(result) && (forall k int :: 0 <= k && k < i ==> result[k] == asList(value)[len(asList(value)) - 1 - k])
+//@   ensures[C19] typeIs(value, "[]interface{}") ==> ret1 == nil && typeIs(ret0, "[]interface{}") && len(asList(ret0)) == len(asList(value)) && (forall k int :: 0 <= k && k < len(asList(value)) ==> asList(ret0)[k] == asList(value)[len(asList(value)) - 1 - k])
+// default: replaces exactly the undefined (nil) and the empty values
+//@ func (*CoreExtension).filterDefault props: C19
+//@   ensures[C19] ret1 == nil && ret0 == ite(len(args) > 0 && (value == nil || fn_isEmptyValue_0(value)), args[0], value)
